@@ -88,6 +88,51 @@ void harness(void)
 			if (rv == 0) ASSERT(g_wb_called, "C14: success only after the writer ran");
 		}
 	}
+#elif defined(FN_QSload_basis) || defined(FN_QSload_basis_array)
+	/* C07: a size-mismatched or malformed basis (illegal status byte, at-upper on a non-ranged row, not exactly
+	 * nrows basic entries) is rejected and the problem's basis / factorization flag stay as they were;
+	 * C12: an accepted basis is stored entry by entry.  BOUND: nstruct, nrows <= NBMAX (loops unwound). */
+#ifndef NBMAX
+#define NBMAX 3
+#endif
+	IN_BOOL(has_basis); IN_INT(nstruct); IN_INT(nrows); IN_INT(bs); IN_INT(br);
+	mpq_QSdata *p; QSbasis *B; int i, nbas = 0, legal = 1, valid;
+	/* sizes >= 1: malloc(0) is implementation-defined (glibc returns a unique pointer, CBMC's model NULL) */
+	ASSUME(1 <= nstruct && nstruct <= NBMAX && 1 <= nrows && nrows <= NBMAX && 1 <= bs && bs <= NBMAX && 1 <= br && br <= NBMAX);
+#ifdef FN_QSload_basis_array
+	ASSUME(bs == nstruct && br == nrows);		/* the array interface has no sizes of its own */
+#endif
+	p = mk_p(nstruct, nrows, has_basis);
+	p->qslp->sense = qsv_alloc((size_t) nrows);
+	for (i = 0; i < NBMAX; i++) if (i < nrows) { char c = nondet_char(); ASSUME(c == 'L' || c == 'G' || c == 'E' || c == 'R'); p->qslp->sense[i] = c; }
+	B = mk_qsbasis(bs, br);
+	for (i = 0; i < NBMAX; i++) if (i < bs) { char c = B->cstat[i]; if (c == QS_COL_BSTAT_BASIC) nbas++; if (c != QS_COL_BSTAT_LOWER && c != QS_COL_BSTAT_BASIC && c != QS_COL_BSTAT_UPPER && c != QS_COL_BSTAT_FREE) legal = 0; }
+	for (i = 0; i < NBMAX; i++) if (i < br) { char c = B->rstat[i]; if (c == QS_ROW_BSTAT_BASIC) nbas++; if (c != QS_ROW_BSTAT_LOWER && c != QS_ROW_BSTAT_BASIC && c != QS_ROW_BSTAT_UPPER) legal = 0;
+		if (c == QS_ROW_BSTAT_UPPER && br == nrows && p->qslp->sense[i] != 'R') legal = 0; }
+	valid = (bs == nstruct && br == nrows && legal && nbas == nrows);
+	{
+		mpq_ILLlp_basis *ob = p->basis;
+		char *ocs = ob ? ob->cstat : 0, *ors = ob ? ob->rstat : 0;
+		int of = p->factorok, ons = ob ? ob->nstruct : 0, onr = ob ? ob->nrows : 0;
+		char c0 = (ob && nstruct > 0) ? ocs[0] : 0;
+#ifdef FN_QSload_basis
+		rv = mpq_QSload_basis(p, B);
+#else
+		rv = mpq_QSload_basis_array(p, B->cstat, B->rstat);
+#endif
+		ASSERT(rv == 0 || !valid, "C12: a well-formed basis of the right size is accepted");
+		ASSERT(rv != 0 || valid, "C07: a size-mismatched or malformed basis is rejected with a non-zero code");
+		if (rv != 0) {
+			ASSERT(p->basis == ob && p->factorok == of, "C07: a rejected basis leaves the problem's basis pointer and factorization flag untouched");
+			if (ob) ASSERT(ob->nstruct == ons && ob->nrows == onr && ob->cstat == ocs && ob->rstat == ors && (nstruct == 0 || ocs[0] == c0), "C07: a rejected basis leaves the contents of the problem's basis untouched");
+		} else {
+			ASSERT(p->factorok == 0 && p->basis != 0 && p->basis->nstruct == nstruct && p->basis->nrows == nrows, "C12: an accepted basis becomes the problem's basis and the old factorization is dropped");
+			for (i = 0; i < NBMAX; i++) if (i < nstruct) ASSERT(p->basis->cstat[i] == B->cstat[i], "C12: column statuses stored entry by entry");
+			for (i = 0; i < NBMAX; i++) if (i < nrows) ASSERT(p->basis->rstat[i] == B->rstat[i], "C12: row statuses stored entry by entry");
+		}
+		COVER_MUST(rv == 0 && nrows == NBMAX, "accepted");
+		COVER_MUST(rv != 0 && bs == nstruct && br == nrows, "malformed");
+	}
 #else
 #error "select a function with -DFN_<name>"
 #endif
